@@ -1,8 +1,19 @@
 use std::io::Result as IoResult;
 use std::io::{Read, Write};
 
+#[cfg(tiny_http_verif)]
+use simrt::sync::mpsc::channel;
+#[cfg(tiny_http_verif)]
+use simrt::sync::mpsc::{Receiver, Sender};
+#[cfg(tiny_http_verif)]
+use simrt::sync::Mutex;
+#[cfg(not(tiny_http_verif))]
 use std::sync::mpsc::channel;
+#[cfg(not(tiny_http_verif))]
 use std::sync::mpsc::{Receiver, Sender};
+#[cfg(tiny_http_verif)]
+use std::sync::Arc;
+#[cfg(not(tiny_http_verif))]
 use std::sync::{Arc, Mutex};
 
 use std::mem;
